@@ -2,10 +2,10 @@
 EXTENDS Abc
 (* negative control: acceptance test relaxed to cost <= tol *)
 RelaxedTrial(c, p) ==
-    /\ gen > 0 /\ Len(parts) < N /\ trials < N + 2
+    /\ gen > 0 /\ Len(parts) < n /\ trials < n + 2
     /\ trials' = trials + 1
     /\ parts' = IF p /\ c <= tol THEN Append(parts, [cost |-> c, prior |-> p, tol |-> tol, gen |-> gen]) ELSE parts
-    /\ UNCHANGED <<gen, tol, post, tols, runs>>
-NegNext == (\E t \in Ranks : Start(t) \/ Continue(t)) \/ (\E c \in Ranks : \E p \in BOOLEAN : RelaxedTrial(c, p)) \/ EndGeneration
+    /\ UNCHANGED <<gen, tol, post, tols, runs, n>>
+NegNext == (\E t \in Ranks : Continue(t) \/ \E m \in 1..N : Start(t, m) \/ Restart(t, m)) \/ (\E c \in Ranks : \E p \in BOOLEAN : RelaxedTrial(c, p)) \/ EndGeneration
 NegSpec == Init /\ [][NegNext]_avars
 =============================================================================
